@@ -25,6 +25,7 @@ import (
 	"github.com/risor-io/risor"
 	"github.com/risor-io/risor/compiler"
 	"github.com/risor-io/risor/object"
+	ros "github.com/risor-io/risor/os"
 	"github.com/risor-io/risor/parser"
 
 	"verifharness/run"
@@ -105,6 +106,7 @@ func concWorker(req N) (resp N) {
 			resp = N{"k": "gopanic", "msg": fmt.Sprint(r)}
 		}
 	}()
+	os.Unsetenv("VERIF_WHO")
 	g := int(req["g"].(float64))
 	rounds := int(req["rounds"].(float64))
 	dir := req["dir"].(string)
@@ -145,6 +147,24 @@ func concWorker(req N) (resp N) {
 	evalOne := func(gi, pi int) string {
 		ctx, cancel := context.WithTimeout(context.Background(), 20*time.Second)
 		defer cancel()
+		if pi >= len(programs)+1+2*len(sharedImportPrograms) {
+			// one program, two hosts: an evaluation that is given a host OS (its own environment and working
+			// directory) and one that is given none at all (the process's real OS, where VERIF_WHO is not set)
+			who := "import os\n[getenv(\"VERIF_WHO\"), os.getenv(\"VERIF_WHO\"), os.getwd() == \"/who\"]"
+			if pi == len(programs)+1+2*len(sharedImportPrograms) {
+				vos := ros.NewVirtualOS(ctx, ros.WithEnvironment(map[string]string{"VERIF_WHO": "g" + strconv.Itoa(gi)}), ros.WithCwd("/who"))
+				res, err := risor.Eval(ctx, who, risor.WithOS(vos))
+				if err != nil {
+					return "ERR " + err.Error()
+				}
+				return res.Inspect()
+			}
+			res, err := risor.Eval(ctx, who)
+			if err != nil {
+				return "ERR " + err.Error()
+			}
+			return res.Inspect()
+		}
 		if pi == len(programs) {
 			res, err := risor.EvalCode(ctx, shared)
 			if err != nil {
@@ -169,7 +189,7 @@ func concWorker(req N) (resp N) {
 		}
 		return res.Inspect()
 	}
-	np := len(programs) + 1 + 2*len(sharedImportPrograms)
+	np := len(programs) + 1 + 2*len(sharedImportPrograms) + 2
 	conc := make([][]string, g)
 	var wg sync.WaitGroup
 	start := make(chan struct{})
